@@ -105,6 +105,18 @@ def run_case(c):
                 res.update(evaluations=n + 1, case={"prop": "C08", "kind": kind, "inputs": {"r": canon(r)}})
                 return res
         return {"ok": True, "evaluations": i["n"]}
+    if k == "repeats":
+        # the same reply decoded several times in one process must decode the same way every time (nothing is remembered)
+        rnd = random.Random(i["seed"])
+        for n in range(i["n"]):
+            kind = ("state1", "shutter", "thermostat")[n % 3]
+            r = gen(kind, rnd)
+            for rep in range(3):
+                res = check(kind, r)
+                if not res["ok"]:
+                    res.update(evaluations=3 * n + rep + 1, detail=f"decode #{rep + 1} of the same reply", case={"prop": "C08", "kind": kind, "inputs": {"r": canon(r)}})
+                    return res
+        return {"ok": True, "evaluations": 3 * i["n"]}
     if k == "shipped":
         base = os.path.join(os.environ.get("PYVC_REPO", "/repo"), "tests", "testresources", "dummy_responses")
         n = 0
